@@ -64,6 +64,57 @@ def run(ctx: Ctx):
     model = ctx.model
     from .common_node import names_resolve
     names_resolve(ctx, "C07-RN")
+    # ---------------- R14 the error handler claims the request before it answers it ----------------
+    # A plain Application may hand the request to a worker thread and then raise: the reader's
+    # error handler tests "not answered yet" and sends 5012, the worker submits its answer through
+    # route_answer at the same moment.  Only one of them may win: the handler has to CLAIM the
+    # request (remove a record both sides need, under the lock or with an operation that fails for
+    # the second) - a membership test followed by a send does not
+    ctx.rule("C07-R14", "the dispatcher's error handler answers a request only after claiming it "
+                        "(not: test, then send)", floor=1)
+    _R14 = RecvModel(ctx)
+    cons14 = "_receive_message:handler-5012#check-then-send"
+    ctx.inst(cons14, rule="C07-R14")
+    for _h in [x for x in ast.walk(_R14.f.node) if isinstance(x, ast.ExceptHandler)]:
+        _src = ast.unparse(_h)
+        if "send_message" not in _src:
+            continue
+        _tests = [x for x in ast.walk(_h) if isinstance(x, ast.Compare) and any(isinstance(o, (ast.In, ast.NotIn)) for o in x.ops)
+                  and "_origin_waiting_answer" in ast.unparse(x)]
+        _claims = [x for x in ast.walk(_h) if (isinstance(x, ast.Call) and isinstance(x.func, ast.Attribute)
+                                               and x.func.attr in ("pop", "acquire") and "waiting" in ast.unparse(x.func.value))
+                   or isinstance(x, ast.Delete) or (isinstance(x, ast.With) and "lock" in ast.unparse(x.items[0].context_expr).lower())]
+        if _tests and not _claims:
+            ctx.fail(cons14, _R14.f.loc(_tests[0]), "the error handler tests `message_id not in self._origin_waiting_answer` "
+                     "and then sends 5012; an application worker thread that answers the same request at that "
+                     "moment passes route_answer (its record is still there) - two answers for one request "
+                     "(findings/audit3/C07-1)", rule="C07-R14")
+
+    # ---------------- R13 what is not a request is not routed like one ---------------------------
+    # Application.send_request routes its message to the least used ready peer of the realm; an
+    # answer handed to it (the docstring says such a message is sent without waiting) must go
+    # back where its request came from: route_request is reached for requests only
+    ctx.rule("C07-R13", "Application.send_request reaches route_request only for a message whose "
+                        "request bit is set", floor=1)
+    _app = model.cls("node.application", "Application")
+    _sr = _app.methods.get("send_request")
+    cons13 = "send_request:routes-requests-only"
+    ctx.inst(cons13, rule="C07-R13")
+    if _sr is None:
+        raise AnalysisError("Application.send_request not found")
+    ctx.use(_sr)
+    _g13 = cfg_of(_sr)
+    _at13 = Atomizer(model, _sr.module, _app)
+    for _n in _g13.nodes:
+        if _n.has_call("route_request"):
+            _fx = must_facts(_g13, _at13, _n)
+            if not any(str(f_[0]).endswith(".header.is_request") and f_[1] == "truthy" and f_[3] is True for f_ in _fx):
+                ctx.fail(cons13, _g13.loc(_n), "send_request passes its message to route_request whatever its "
+                         "request bit: an answer is written to the least used peer of the realm - a "
+                         "connection that never sent the request - and the caller waits for an answer "
+                         "to an answer until the timeout", rule="C07-R13",
+                         expected="`if not message.header.is_request: send_answer(...); return None` first",
+                         observed=f"guards: {sorted(map(str, _fx))[:3]}")
     from .common_codec import no_shared_default_objects
     no_shared_default_objects(ctx, "C07-R12", [f_ for f_ in model.all_funcs() if ".node" in f_.module.name], "the node package")
     from . import c05 as _c05
